@@ -1,5 +1,7 @@
-# C20  parameter files / units / snapshot index: proof (Coq) + correspondence of the executable models with
-#      src/YAMLDictionary.hpp, src/ParameterFile.cpp, src/Unit.hpp, src/UnitConverter.hpp
+# C20  parameter files / units / snapshot write -> read: proof (Coq) + correspondence of the executable models with
+#      src/YAMLDictionary.hpp, src/ParameterFile.cpp, src/Unit.hpp, src/UnitConverter.hpp, and (snapshot clause) a round trip through the real
+#      DensitySubGridCreator / CartesianDensityGrid -> GadgetDensityGridWriter (HDF5) -> CMacIonizeSnapshotDensityFunction /
+#      BufferedCMacIonizeSnapshotDensityFunction -> grid on the same geometry, tied to the extracted cell orderings of coq/Cxx/C20_SnapDefs.v
 import os, re, json, math
 import vf
 
@@ -12,22 +14,47 @@ CLAIM = dict(cat="proof", design="§3 C20, §8 O2/O3",
         "each other; Unit::operator^= at exponent 0 (O2) is modelled in two variants: for the pinned code 'u^0 has factor 1' and 'exponents add' are refuted with the witness cm (cm^0 converts with 0.01), for the repaired "
         "code (hooks/c20_fix_unit_pow_zero.patch) u^0 = 1 and u^(a+b) = u^a u^b hold for all integers; the built-in unit table agrees with itself within 1 ulp (kpc/pc, Gyr/Myr/yr, km/m/cm, kg/g, J/erg, bar/Pa, angstrom); "
         "the snapshot reader maps the midpoint of cell i of n to index i for every n (over Q). "
+        "Snapshot clause (Cxx/C20_SnapDefs.v, literal Z models): the task-based HDF5 writer's appends (subgrid loop, blocks of 10000 cells, running block_offset; DensitySubGridCreator::create_subgrid and "
+        "DensitySubGrid::get_three_index decompositions) and the stores of BOTH branches of CMacIonizeSnapshotDensityFunction::initialize() (TaskBased: numblock = ncell/numsubgrid, the six loops, cell_index strides; "
+        "Cartesian: placement by the stored coordinate) plus the position lookup of operator(). For ALL subgrid counts and cells per subgrid >= 1 (non-cubic included): the writer puts cell c of subgrid g at "
+        "position g*cells_per_subgrid + c and this is a bijection onto [0, ncell); the reader's cell_index of (block, cell in block) is exactly that position and its stores hit every cell and every position once; "
+        "the midpoint the grid computes for a cell is looked up as that cell; hence for an arbitrary field f every cell reads back f(cell) (rd_value .. (snapshot_file S B f) (midpoint of (g,c)) = Some (f (global_cell g c))); "
+        "the legacy writer/reader pair reads back every cell whatever the order. Refuted variant: with the box known only to the 6 printed digits of the used values another cell is looked up. "
         "Tie: the extracted models are compared verbatim (text in hex, doubles as bit patterns) with the real YAMLDictionary, ParameterFile and UnitConverter on generated parameter trees, typed queries with defaults, "
-        "used-values dumps fed back, and compound unit strings on every run; the unit table and SI unit names are dumped from the real converter.",
-   note="The HDF5 snapshot write/read clause is covered ONLY by the index-inverse theorem (exact arithmetic, exact midpoints): no snapshot is written or read, stored precision and binary64 rounding of "
-        "ncell*(x-anchor)/side are not checked. Number formatting/parsing (operator<< with 6 digits, strtod/stod/sscanf/stoi) are oracles: 'reproduces every physical value to the printed precision' is checked on the real "
+        "used-values dumps fed back, and compound unit strings on every run; the unit table and SI unit names are dumped from the real converter. Snapshot tie, every run: ~55 (quick) geometries (cubic, non-cubic subgrids with "
+        "different cell counts in x, y, z, one subgrid per axis, one-cell subgrids, subgrids > 10000 cells, non-cubic and offset boxes in m/cm/pc/kpc, periodic flags) are built as real DensitySubGridCreator< DensitySubGrid >, "
+        "< HydroDensitySubGrid > or CartesianDensityGrid grids whose cells hold distinct values (functions of the global cell index), written with the real GadgetDensityGridWriter as the simulations call it, read back by the real "
+        "CMacIonizeSnapshotDensityFunction (and BufferedCMacIonizeSnapshotDensityFunction) into a second grid on the same geometry; every cell's density, temperature and all stored neutral fractions must be BIT-IDENTICAL "
+        "(the datasets are binary64: H5Tget_size = 8 is checked; a binary32 file would be held to the nearest float); the raw file order and the dataset position each cell was read from (observed through the distinct values) "
+        "are compared with the extracted wr_entries / rd_entries for every cell.",
+   note="Snapshot clause: proved for the TaskBased and Cartesian branches only (AMR and Voronoi snapshots are not modelled or exercised); positions over Q (exact midpoints) under the hypothesis that the reader's "
+        "anchor/sides equal the grid's; binary64 rounding of ncell*(x-anchor)/side and the HDF5 library are exercised on the real code for the generated boxes only, not proved. The buffered reader is tied by the oracle and "
+        "by the same index model, its own position arithmetic is not modelled. FINDINGS of the unchanged code (reported as notes, see PINNED_BOX_PRECISION): (1) snapshot_box_precision: the /Parameters block stores "
+        "SimulationBox:anchor/sides as used values with 6 significant digits; a box that needs more (e.g. anchor z 428.77666347504663 m, side 0.007542463164563509 m, 12 cells: 1056 of 1152 cells) is read back with the values "
+        "of neighbouring cells; proved as C20_snapshot_printed_precision_box_refuted, fix in hooks/c20_fix_snapshot_box_precision.patch; the generators use only boxes that survive the 6 digit round trip while the flag is set. "
+        "(2) a snapshot written with the DEFAULT output fields (no Temperature without hydro) cannot be read back at all (cmac_error 'Failed to open dataset Pressure'); all round trips set DensityGridWriterFields:Temperature. "
+        "Number formatting/parsing (operator<< with 6 digits, strtod/stod/sscanf/stoi) are oracles: 'reproduces every physical value to the printed precision' is checked on the real "
         "code by re-reading (relative 5.1e-6), not proved. Unit theorems are over R; binary64 only through bit-exact correspondence. Trusted: Coq kernel, standard real-number axioms (sig_forall_dec, "
         "functional_extensionality_dep), PrimFloat primitives, extraction (ExtrOcamlString, ExtrOCamlFloats). The harness turns cmac_error (abort) into an exception to compare rejected inputs. "
         "KNOWN FINDING (not repaired): a string parameter used with an empty value (SPHNGSnapshotDensityFunction 'DensityFunction:binary dump name', default \"\") is dumped as 'name:  # (default value)', which reads back "
         "as a group header, so the used-values dump is rejected when fed back (key empty_used_value).",
-   technique="Coq proof (lists of bytes, sorted-map invariant; reals; rationals) + extraction-based differential correspondence with the real classes")
+   technique="Coq proof (lists of bytes, sorted-map invariant; reals; rationals; Z index bijections) + extraction-based differential correspondence with the real classes + HDF5 write/read round trip on real grids")
 
 # which variant of Unit::operator^= the code under test is expected to be: True = pinned commit (exponent 0 keeps the
 # scale factor, reported as finding unit_pow_zero), False = repaired (hooks/c20_fix_unit_pow_zero.patch)
 PINNED_POW_ZERO = False
 if os.environ.get("C20_PINNED_POW_ZERO") in ("0", "1"):      # for trying the patch: CMI_REPO=<worktree> C20_PINNED_POW_ZERO=0
     PINNED_POW_ZERO = os.environ["C20_PINNED_POW_ZERO"] == "1"
+# snapshot parameter block: True = the tree under test stores SimulationBox:anchor/sides in the snapshot as USED VALUES, i.e. with the
+# 6 significant digits of operator<< (finding snapshot_box_precision: a box that is not representable in 6 digits is read back
+# shifted, cells receive values of neighbouring cells); the generators then only use boxes that survive the 6 digit round trip and
+# the two probe geometries are reported as a note.  False = repaired (hooks/c20_fix_snapshot_box_precision.patch): every box is
+# generated and a failing probe is a violation.
+PINNED_BOX_PRECISION = False      # repo commit 9784fe3 stores anchor and sides of the box with 17 digits; True = the pinned commit (6 digits)
+if os.environ.get("C20_PINNED_BOX_PRECISION") in ("0", "1"):
+    PINNED_BOX_PRECISION = os.environ["C20_PINNED_BOX_PRECISION"] == "1"
 HARNESS = os.path.join(vf.VERIF, "harness/c20/roundtrip_harness.cpp")
+SNAP_HARNESS = os.path.join(vf.VERIF, "harness/c20/snapshot_harness.cpp")
 DRIVER = os.path.join(vf.VERIF, "ocaml/c20_driver.ml")
 
 
@@ -433,6 +460,402 @@ Q_CORPUS = [
 
 
 # ----------------------------------------------------------------------------
+# snapshot write -> read on the real code (harness/c20/snapshot_harness.cpp) + the extracted orderings
+ION_NAMES = ["H", "He", "C+", "C++", "N", "N+", "N++", "O", "O+", "Ne", "Ne+", "S+", "S++", "S+++", "Ar", "Ar+", "Ar++", "Ar+++"]
+def length_unit_factors():
+    """SI factors of the length units used for boxes, as written in UnitConverter::get_single_unit of the tree under test
+    (box_safe replays the 6 digit print of the used value in SI, so it needs the factor the code uses: pc is 3.086e16 there)"""
+    f = {"m": 1.0, "cm": 0.01, "pc": 3.086e16, "kpc": 3.086e19}
+    try:
+        src = open(os.path.join(vf.REPO, "src/UnitConverter.hpp"), errors="replace").read()
+        for u in list(f):
+            m = re.search(r'name\s*==\s*"%s"\)\s*\{\s*return\s+Unit\(\s*([0-9.eE+-]+)\s*,' % u, src)
+            if m:
+                f[u] = float(m.group(1))
+    except OSError:
+        pass
+    return f
+
+
+UNIT_SI = length_unit_factors()
+# (unit, anchor, sides)
+SNAP_BOXES = [
+    ("m", (0., 0., 0.), (1., 1., 1.)),
+    ("pc", (-5., -2.5, 0.5), (10., 5., 1000.)),
+    ("m", (-0.5, -0.25, -1.5), (1., 0.5, 3.)),
+    ("m", (1000., -1000., 3.), (0.001, 2000., 1.e-6)),
+    ("cm", (0.1, 0.2, 0.3), (0.7, 1.1, 1.3)),
+]
+# boxes that do NOT survive the 6 significant digits of the used-values print (finding snapshot_box_precision)
+SNAP_PRECISION_PROBES = [
+    ((16, 6, 12), (4, 3, 2), ("m", (-14.163889027484311, -39.50135950111277, 428.77666347504663), (0.0708688301383863, 3.656031998563064, 0.007542463164563509))),
+    ((2, 2, 512), (1, 1, 4), ("pc", (1000., 2000., 3000.4), (1., 1., 1.))),          # a 1 pc zoom box 3 kpc from the origin, 512 cells along z
+]
+
+
+def box_strings(box):
+    u, a, l = box
+    return ("[%r %s, %r %s, %r %s]" % (a[0], u, a[1], u, a[2], u), "[%r %s, %r %s, %r %s]" % (l[0], u, l[1], u, l[2], u))
+
+
+def box_safe(n, box):
+    """does the reader find every cell when it only knows anchor and sides to the 6 significant digits of the used-values print?
+    (own arithmetic; a cell is safe when its looked-up coordinate stays 0.05 away from the neighbouring cells)"""
+    u, a, l = box
+    for ax in range(3):
+        A, L = a[ax] * UNIT_SI[u], l[ax] * UNIT_SI[u]
+        A6, L6 = float("%g" % A), float("%g" % L)
+        for i in range(n[ax]):
+            mid = A + (i + 0.5) * L / n[ax]
+            x = n[ax] * (mid - A6) / L6
+            if not (i + 0.05 < x < i + 0.95):
+                return False
+    return True
+
+
+# (cells, subgrids): cubic, one subgrid per axis, subgrids with different cell counts in x, y and z, one-cell subgrids,
+# flat grids, and subgrids with more than the writer's block of 10000 cells
+SNAP_CORPUS = [
+    ((8, 8, 8), (2, 2, 2)), ((4, 4, 4), (1, 1, 1)), ((8, 8, 16), (2, 2, 2)), ((16, 8, 8), (2, 4, 2)), ((8, 8, 32), (4, 2, 2)),
+    ((6, 15, 4), (3, 5, 1)), ((3, 5, 7), (1, 1, 1)), ((3, 5, 7), (3, 5, 7)), ((12, 10, 9), (2, 5, 3)), ((1, 1, 5), (1, 1, 5)),
+    ((1, 6, 1), (1, 2, 1)), ((2, 3, 4), (1, 1, 1)), ((22, 23, 21), (1, 1, 1)), ((44, 23, 21), (2, 1, 1)), ((5, 4, 6), (5, 1, 2)),
+]
+
+
+def snap_param_text(n, s, box, all_ions=False, temperature=True, typ=None, number_density=False, periodic=None):
+    t = "SimulationBox:\n  anchor: %s\n  sides: %s\n" % box_strings(box)
+    if periodic:
+        t += "  periodicity: [%s, %s, %s]\n" % tuple("true" if x else "false" for x in periodic)
+    t += "DensityGrid:\n  number of cells: [%d, %d, %d]\n" % tuple(n)
+    if typ:
+        t += "  type: %s\n" % typ
+    t += "DensitySubGridCreator:\n  number of subgrids: [%d, %d, %d]\n" % tuple(s)
+    if periodic:
+        t += "  periodicity: [%s, %s, %s]\n" % tuple("true" if x else "false" for x in periodic)
+    t += "DensityGridWriter:\n  prefix: c20snap\n  padding: 3\nDensityGridWriterFields:\n  Coordinates: 1\n"
+    if temperature:
+        t += "  Temperature: 1\n"
+    if number_density:
+        t += "  NumberDensity: 1\n"
+    if all_ions:
+        t += "".join("  NeutralFraction%s: 1\n" % i for i in ION_NAMES)
+    return t
+
+
+def snap_cases(ck):
+    """list of dicts mode, n, s, box, text, salt"""
+    rng = ck.rng.fork("snapshot")
+    cases = []
+
+    def add(mode, n, s, box, **kw):
+        if mode == "H":
+            kw["number_density"] = True
+        if mode == "L":
+            kw["typ"] = "Cartesian"
+        cases.append({"mode": mode, "n": tuple(n), "s": tuple(s), "box": box, "salt": rng.below(1000),
+                      "text": snap_param_text(n, s, box, **kw), "opts": kw})
+
+    for k, (n, s) in enumerate(SNAP_CORPUS):
+        add("T", n, s, SNAP_BOXES[k % len(SNAP_BOXES)], all_ions=(k % 4 == 2), periodic=[(True, False, True), None, (False, True, False)][k % 3])
+        if k % 3 == 0 and n[0] * n[1] * n[2] < 9000:
+            add("H", n, s, SNAP_BOXES[(k + 1) % len(SNAP_BOXES)])
+        if k % 3 == 1 and n[0] * n[1] * n[2] < 9000:
+            add("L", n, (1, 1, 1), SNAP_BOXES[(k + 2) % len(SNAP_BOXES)])
+    add("L", (22, 23, 21), (1, 1, 1), SNAP_BOXES[1])          # legacy writer with a second block of 10000
+    add("H", (21, 22, 46), (1, 1, 2), SNAP_BOXES[4])          # hydro overload with a second block in every subgrid
+    # a task based snapshot whose parameter block carries a left-over 'DensityGrid:type: Cartesian': the reader takes
+    # the coordinate branch on the task based ordering
+    add("T", (6, 4, 10), (3, 1, 2), SNAP_BOXES[2], typ="Cartesian")
+    # buffered reader: cubic box and cubic cells only, subgrids may still be non-cubic
+    for n1, s in [(12, (2, 3, 4)), (12, (6, 1, 3)), (8, (2, 2, 2)), (6, (1, 1, 1)), (12, (1, 12, 2))]:
+        add("B", (n1, n1, n1), s, [SNAP_BOXES[0], ("pc", (-2., -2., -2.), (4., 4., 4.))][n1 % 8 == 4])
+    nrand = 24 if ck.quick else 150
+    for i in range(nrand):
+        while True:
+            s = [1 + rng.below(4) for _ in range(3)]
+            b = [1 + rng.below(6 if ck.quick else 9) for _ in range(3)]
+            if i % 4 != 3 and len(set(b)) < 3:
+                continue            # mostly subgrids whose cell counts differ in x, y and z
+            break
+        n = [s[a] * b[a] for a in range(3)]
+        if rng.below(3) == 0:
+            while True:
+                box = (rng.choice(["m", "cm", "pc", "kpc"]), tuple((rng.uniform() - 0.5) * 10.0 ** (rng.below(7) - 3) for _ in range(3)),
+                       tuple((0.1 + rng.uniform()) * 10.0 ** (rng.below(7) - 3) for _ in range(3)))
+                if not PINNED_BOX_PRECISION or box_safe(n, box):
+                    break
+        else:
+            box = rng.choice(SNAP_BOXES)
+        mode = ["T", "T", "T", "H", "L", "T"][i % 6]
+        add(mode, n, s if mode != "L" else (1, 1, 1), box, all_ions=(i % 7 == 0))
+    return cases
+
+
+def snap_cmd(c):
+    return "S %s %d %s" % (c["mode"], c["salt"], c["text"].encode().hex())
+
+
+def snap_split(lines):
+    """answer blocks of the harness: list of (header fields or None, W rows, K rows, C rows, end line)"""
+    blocks, cur = [], None
+    for l in lines:
+        if cur is None:
+            cur = {"G": None, "W": [], "K": [], "C": [], "E": None}
+        t = l[:1]
+        if t == "G":
+            cur["G"] = l.split()
+        elif t in "WKC":
+            cur[t].append(l.split())
+        elif t == "E":
+            cur["E"] = l
+            blocks.append(cur)
+            cur = None
+    if cur is not None:
+        blocks.append(cur)
+    return blocks
+
+
+def f32_round_bits(bits):
+    import struct
+    x = vf.bits_dbl(bits)
+    return vf.dbl_bits(struct.unpack("<f", struct.pack("<f", x))[0])
+
+
+def snap_decode(case, fields, bits):
+    """global cell index encoded in the value of each field (see the harness header); None when it is not a value the harness wrote"""
+    ncell = case["n"][0] * case["n"][1] * case["n"][2]
+    out = []
+    for name, b in zip(fields, bits):
+        x = vf.bits_dbl(int(b, 16))
+        if name == "NumberDensity":
+            g = x - 1.0 - case["salt"]
+        elif name == "Temperature":
+            g = (x - 1000.0 - case["salt"]) * 4.0
+        else:
+            ion = ION_NAMES.index(name[len("NeutralFraction"):])
+            g = (x * 2.0 ** 40 - ion) / 32.0 - 1.0
+        out.append(int(g) if g == int(g) and 0 <= g < ncell else None)
+    return out
+
+
+def snap_oracle(case, blk):
+    """the property on the REAL code's answers only. returns (what, detail dict) of the first failure or None"""
+    if blk["E"] is None or not blk["E"].startswith("E ok"):
+        return "the snapshot could not be written or read back: %s" % (blk["E"] or "harness died"), {"error": blk["E"]}
+    G = blk["G"]
+    n = case["n"]
+    ncell = n[0] * n[1] * n[2]
+    elsize = int(G[9])
+    fields = G[11:]
+    need = ["NumberDensity", "Temperature", "NeutralFractionH"] + (["NeutralFractionHe"] if case["opts"].get("all_ions") else [])
+    miss = [f for f in need if f not in fields]
+    if miss:
+        return "fields %s were requested but are not in the snapshot" % miss, {"fields": fields}
+    if len(blk["C"]) != ncell or len(blk["W"]) != ncell:
+        return "the snapshot holds %d entries and %d cells were compared, the grid has %d cells" % (len(blk["W"]), len(blk["C"]), ncell), {}
+    for row in blk["C"]:
+        cell = tuple(int(x) for x in row[1:4])
+        for name, wr in zip(fields, row[4:]):
+            w, r = wr.split(":")
+            wb = int(w, 16)
+            exp = wb if elsize == 8 else f32_round_bits(wb)
+            if int(r, 16) != exp:
+                src = snap_decode(case, [name], [r])[0]
+                where = ""
+                if src is not None:
+                    where = " = the value of cell (%d, %d, %d)" % (src // (n[1] * n[2]), (src // n[2]) % n[1], src % n[2])
+                return ("cell (%d, %d, %d): %s written %r (bits %s), read back %r (bits %s)%s; stored as %d byte floats so the read value must be %s" % (
+                    cell + (name, vf.bits_dbl(wb), w, vf.bits_dbl(int(r, 16)), r, where, elsize, "bit-identical" if elsize == 8 else "the nearest binary32")),
+                    {"cell": list(cell), "field": name, "written_bits": w, "read_bits": r, "value_of_cell": src})
+    return None
+
+
+def snapshot_pass(ck, okm, violate):
+    cov = ck.coverage
+    d = ck.scratch
+    ok, log = vf.cxx_build(SNAP_HARNESS, os.path.join(d, "snap_impl"), extra=["-Wl,--no-as-needed", "-lhdf5_serial", "-lmpi_cxx", "-lmpi"], libs=False, openmp=True)
+    if not ok:
+        ck.breaks.append("snapshot harness does not compile against the tree (GadgetDensityGridWriter / CMacIonizeSnapshotDensityFunction / DensitySubGridCreator):\n" + log[-2500:])
+        return
+    work = os.path.join(d, "snapwork")
+    os.makedirs(work, exist_ok=True)
+    cases = snap_cases(ck)
+    cmds = [snap_cmd(c) for c in cases]
+    # the default output fields (no Temperature without hydro): observation only, see the notes
+    probe = {"mode": "T", "n": (4, 6, 8), "s": (2, 2, 2), "salt": 0, "opts": {},
+             "text": snap_param_text((4, 6, 8), (2, 2, 2), SNAP_BOXES[0], temperature=False)}
+    # boxes that need more than the 6 printed digits of the used values (finding snapshot_box_precision)
+    pprobes = [{"mode": "T", "n": n, "s": sg, "box": box, "salt": 7, "opts": {}, "text": snap_param_text(n, sg, box)} for (n, sg, box) in SNAP_PRECISION_PROBES]
+    if not PINNED_BOX_PRECISION:
+        cases += pprobes
+        cmds += [snap_cmd(c) for c in pprobes]
+        pprobes = []
+    env = dict(os.environ, OMP_NUM_THREADS="2")
+    allcmds = cmds + [snap_cmd(probe)] + [snap_cmd(c) for c in pprobes]
+    rc, out = vf.run_lines([os.path.join(d, "snap_impl"), work], "\n".join(allcmds) + "\n", timeout=900, env=env)
+    blocks = snap_split(out)
+    if rc != 0 or len(blocks) != len(allcmds):
+        k = min(len(blocks), len(cases) - 1)
+        ck.breaks.append("snapshot harness exited with %d after %d of %d geometries; next: mode %s cells %s subgrids %s" % (
+            rc, len(blocks), len(allcmds), cases[k]["mode"], cases[k]["n"], cases[k]["s"]))
+    pb = blocks[len(cmds)] if len(blocks) > len(cmds) else None
+    ppb = blocks[len(cmds) + 1:]
+    blocks = blocks[:len(cmds)]
+    nprobe_fail = 0
+    for c, blk in zip(pprobes, ppb):
+        why = snap_oracle(c, blk)
+        nbad = sum(1 for row in blk["C"] if any(x.split(":")[0] != x.split(":")[1] for x in row[4:]))
+        if why:
+            nprobe_fail += 1
+            a6 = ["%g" % (x * UNIT_SI[c["box"][0]]) for x in c["box"][1]]
+            ck.notes.append("FINDING snapshot_box_precision (unchanged code, not a violation of the index theorems: their hypothesis 'same anchor and sides' fails): the /Parameters "
+                            "block of a snapshot holds the USED values of SimulationBox:anchor/sides, printed with 6 significant digits (anchor read back as [%s] m); "
+                            "CMacIonizeSnapshotDensityFunction rebuilds its box from them, so on cells %s subgrids %s anchor %s sides %s  %d of %d cells read back the "
+                            "values of OTHER cells: %s" % ((", ".join(a6), c["n"], c["s"]) + box_strings(c["box"]) + (nbad, len(blk["C"]), why[0])))
+    cov["snapshot_box_precision_probes"] = {"run": len(pprobes), "fail": nprobe_fail, "expected": "fail (pinned: 6 digit box in the parameter block)" if PINNED_BOX_PRECISION else "part of the cases"}
+    if PINNED_BOX_PRECISION and pprobes and nprobe_fail == 0 and len(ppb) == len(pprobes):
+        ck.notes.append("the snapshot_box_precision probes read back correctly: this tree stores the box exactly; set PINNED_BOX_PRECISION = False (or C20_PINNED_BOX_PRECISION=0) to make them part of the cases")
+    default_fields_unreadable = pb is not None and pb["E"] is not None and pb["E"].startswith("E error")
+    if default_fields_unreadable:
+        msg = ("observation (unchanged code): a task based snapshot written with the DEFAULT output fields (DensityGridWriterFields defaults without hydro: Coordinates, "
+               "NumberDensity, NeutralFractionH; Temperature off) cannot be used as 'DensityFunction: type: CMacIonizeSnapshot' initial condition: "
+               "initialize() aborts with '%s' (it falls back to a Pressure dataset that is not there either); cells 4x6x8, subgrids 2x2x2; "
+               "all round trips of this check therefore set 'DensityGridWriterFields:Temperature: 1'" % pb["E"][8:])
+        ck.notes.append(msg)
+        if os.environ.get("C20_DEFAULT_FIELDS_FINDING", "1") == "1":
+            violate("C20 snapshot written with the default output fields cannot be read back: " + pb["E"],
+                    {"snapshot_cmd": snap_cmd(probe), "param_text": probe["text"], "case": {k: probe[k] for k in ("mode", "n", "s", "salt", "opts")}},
+                    {"kind": "snapshot_default_fields_unreadable"})
+    elif pb is not None:
+        ck.notes.append("a snapshot with the default output fields is readable in this tree (the check still forces Temperature on)")
+
+    # ---- oracle: every cell reads back what was written
+    ncmp = nfield = 0
+    mode_hist, shape_hist = {}, {"cubic": 0, "two_equal": 0, "all_different": 0}
+    elsizes = set()
+    for c, blk in zip(cases, blocks):
+        why = snap_oracle(c, blk)
+        b = [c["n"][a] // c["s"][a] for a in range(3)]
+        if why:
+            what, detail = why
+            violate("C20 snapshot write -> read on the real code (mode %s: %s), cells %dx%dx%d, subgrids %dx%dx%d (%dx%dx%d cells each), box anchor %s sides %s: %s" % (
+                (c["mode"], {"T": "DensitySubGrid writer + CMacIonizeSnapshotDensityFunction", "H": "HydroDensitySubGrid writer + CMacIonizeSnapshotDensityFunction",
+                             "L": "legacy CartesianDensityGrid writer + CMacIonizeSnapshotDensityFunction", "B": "DensitySubGrid writer + BufferedCMacIonizeSnapshotDensityFunction"}[c["mode"]])
+                + c["n"] + c["s"] + tuple(b) + box_strings(c["box"]) + (what,)),
+                dict(detail, snapshot_cmd=snap_cmd(c), param_text=c["text"], case={k: c[k] for k in ("mode", "n", "s", "salt", "opts")}),
+                {"kind": "snapshot_roundtrip"})
+            continue
+        mode_hist[c["mode"]] = mode_hist.get(c["mode"], 0) + 1
+        if c["mode"] != "L":
+            shape_hist[{1: "cubic", 2: "two_equal", 3: "all_different"}[len(set(b))]] += 1
+        ncmp += len(blk["C"])
+        nfield += len(blk["C"]) * (len(blk["G"]) - 11)
+        elsizes.add(int(blk["G"][9]))
+
+    # ---- the writer's side of the file (real code only): every cell once, all fields of a row belong to one cell, stored
+    #      coordinates inside that cell
+    for c, blk in zip(cases, blocks):
+        if blk["G"] is None or not (blk["E"] or "").startswith("E ok"):
+            continue
+        fields = blk["G"][11:]
+        n = c["n"]
+        ncell = n[0] * n[1] * n[2]
+        seen = {}
+        bad = None
+        for row in blk["W"]:
+            gs = set(snap_decode(c, fields, row[2:]))
+            if len(gs) != 1 or None in gs:
+                bad = "position %s of the datasets holds values of different cells / unknown values: %s" % (row[1], sorted(gs, key=str))
+                break
+            g = gs.pop()
+            if g in seen:
+                bad = "cell %d is stored at positions %d and %s" % (g, seen[g], row[1])
+                break
+            seen[g] = int(row[1])
+        if not bad and len(seen) != ncell:
+            bad = "%d of %d cells are stored" % (len(seen), ncell)
+        c["pos_of_gidx"] = seen
+        if bad:
+            violate("C20 snapshot writer, mode %s cells %s subgrids %s: %s" % (c["mode"], c["n"], c["s"], bad),
+                    {"snapshot_cmd": snap_cmd(c), "param_text": c["text"], "case": {k: c[k] for k in ("mode", "n", "s", "salt", "opts")}}, {"kind": "snapshot_roundtrip"})
+
+    # ---- correspondence with the extracted orderings (Cxx/C20_SnapDefs.v): writer order and reader index, every cell
+    nord = 0
+    if okm:
+        mcmds = []
+        for c in cases:
+            b = [c["n"][a] // c["s"][a] for a in range(3)]
+            if c["mode"] == "L":
+                mcmds.append("SL %d %d %d" % c["n"])
+            else:
+                mcmds.append("SW %d %d %d %d %d %d" % (c["s"] + tuple(b)))
+                mcmds.append("SR %d %d %d %d %d %d" % (c["s"] + c["n"]))
+        rc_m, mout = vf.run_lines([os.path.join(d, "model"), "0"], "\n".join(mcmds) + "\n", timeout=900)
+        mblocks, cur = [], []
+        for l in mout:
+            if l == "e":
+                mblocks.append(cur)
+                cur = []
+            else:
+                cur.append(l.split())
+        if rc_m != 0 or len(mblocks) != len(mcmds):
+            ck.breaks.append("model driver (snapshot orderings) exited with %d after %d of %d commands" % (rc_m, len(mblocks), len(mcmds)))
+        else:
+            k = 0
+            nmis = 0
+            for c, blk in zip(cases, blocks):
+                n = c["n"]
+                if c["mode"] == "L":
+                    wr, rd = mblocks[k], None
+                    k += 1
+                else:
+                    wr, rd = mblocks[k], mblocks[k + 1]
+                    k += 2
+                if blk["G"] is None or not (blk["E"] or "").startswith("E ok") or "pos_of_gidx" not in c:
+                    continue
+                geo = "mode %s cells %s subgrids %s" % (c["mode"], c["n"], c["s"])
+                # writer: model position of every cell == position found in the real file
+                mpos = {}
+                for row in wr:
+                    cell = tuple(int(x) for x in row[-3:])
+                    mpos[(cell[0] * n[1] + cell[1]) * n[2] + cell[2]] = int(row[1])
+                nord += len(wr)
+                if mpos != c["pos_of_gidx"]:
+                    dif = [g for g in sorted(mpos) if c["pos_of_gidx"].get(g) != mpos[g]][:1]
+                    nmis += 1
+                    if nmis <= 4:
+                        ck.breaks.append("correspondence C20 writer ordering model <-> real GadgetDensityGridWriter, %s: %d cells at other positions; first: cell index %s is at position %s of the real file, model %s" % (
+                            geo, sum(1 for g in mpos if c["pos_of_gidx"].get(g) != mpos[g]), dif, c["pos_of_gidx"].get(dif[0]) if dif else None, mpos.get(dif[0]) if dif else None))
+                    continue
+                if rd is None:
+                    continue
+                # reader: the dataset position whose value each cell received == the model's cell_index for that cell
+                midx = {tuple(int(x) for x in row[1:4]): int(row[4]) for row in rd}
+                fields = blk["G"][11:]
+                for row in blk["C"]:
+                    cell = tuple(int(x) for x in row[1:4])
+                    src = snap_decode(c, fields[:1], [row[4].split(":")[1]])[0]
+                    rpos = c["pos_of_gidx"].get(src)
+                    nord += 1
+                    if rpos != midx.get(cell):
+                        nmis += 1
+                        if nmis <= 4:
+                            ck.breaks.append("correspondence C20 reader index model <-> real %s, %s: cell %s received the value stored at dataset position %s, the model's cell_index is %s" % (
+                                "BufferedCMacIonizeSnapshotDensityFunction" if c["mode"] == "B" else "CMacIonizeSnapshotDensityFunction::initialize", geo, cell, rpos, midx.get(cell)))
+                        break
+            cov["snapshot_model_mismatches"] = nmis
+    cov["snapshot_geometries"] = len(cases)
+    cov["snapshot_geometries_by_mode"] = {k: v for k, v in sorted(mode_hist.items())}
+    cov["snapshot_subgrid_shapes"] = shape_hist
+    cov["snapshot_cells_compared"] = ncmp
+    cov["snapshot_values_compared_bitwise"] = nfield
+    cov["snapshot_order_entries_compared_with_model"] = nord
+    cov["snapshot_stored_element_bytes"] = sorted(elsizes)
+    cov["snapshot_default_fields_unreadable"] = bool(default_fields_unreadable)
+    return ncmp, nord
+
+
+# ----------------------------------------------------------------------------
 def run(ck):
     ck.prove()
     okm, oki = build(ck)
@@ -448,6 +871,11 @@ def run(ck):
             return
         nviol_keys.add(k)
         ck.violation(what, replay, key=key)
+
+    # ---- snapshot clause: real grid -> real HDF5 writer -> real reader -> real grid, + extracted orderings
+    snap = snapshot_pass(ck, okm, violate) or (0, 0)
+    ck.log("snapshot: %d geometries, %d cells read back and compared, %d ordering entries compared with the model" % (
+        cov.get("snapshot_geometries", 0), snap[0], snap[1]))
 
     if not oki:
         ck.resolve_breaks_without_input()
@@ -733,7 +1161,7 @@ def run(ck):
                         detail = " line %d: impl %r model %r" % (n, li[n] if n < len(li) else None, lm[n] if n < len(lm) else None)
                     ck.breaks.append("correspondence C20 model <-> real code: command %s differs in %s%s; impl=%s model=%s" % (
                         c[:160], diff[0], detail, e[:300], mm[:300]))
-    cov["evaluations"] = n_eval
+    cov["evaluations"] = n_eval + snap[1]
     cov["distinct_nontrivial"] = len(shapes_nontrivial)
     cov["rule"] = ("commands from SplitMix64(VERIF_SEED): Y = parameter text (corpus of boundary cases, then generated trees with 1..5 name components, "
                    "names over bytes around ':' such as ' ' '!' '+' '-' '0' '9' ';' 'A' '_' 'z' '~' and UTF-8, scalar/vector/bool/unit values, rendered canonically or with free "
@@ -741,7 +1169,10 @@ def run(ck):
                    "ParameterFile, used-values dump, dump parsed again and queried again; G/C/V = get_unit, to_SI+to_unit, convert on generated compound unit strings "
                    "(exponents -3..3 incl. 0, '+' signs, missing blanks after powers). evaluations = answer lines of the real code compared verbatim with the extracted Coq model "
                    "(text in hex, doubles as bit patterns). A Y case is non-trivial when the parsed dictionary has two consecutive keys where the second has more groups than "
-                   "the first and the first has >= 2 groups that are not shared (the printer's pop loop leaves stale entries, DESIGN O3); distinct = distinct key sets among those")
+                   "the first and the first has >= 2 groups that are not shared (the printer's pop loop leaves stale entries, DESIGN O3); distinct = distinct key sets among those. "
+                   "Snapshot: S <mode> = one geometry (corpus of cubic / non-cubic / one-subgrid / one-cell-subgrid / > 10000-cell-subgrid layouts, then random layouts with 1..4 subgrids and 1..6 (thorough 1..9) cells per "
+                   "subgrid per axis, mostly pairwise different, boxes from a corpus or random in m/cm/pc/kpc) -> real grid with distinct cell values -> real HDF5 writer -> real reader -> second real grid; "
+                   "every cell compared bitwise; evaluations include one per entry of the writer order and one per cell of the reader index compared with the extracted model")
     cov["yaml_cases"] = sum(1 for m in meta if m[0] == "Y")
     cov["yaml_distinct_dictionaries"] = len(shapes_all)
     cov["yaml_parse_errors_compared"] = n_err
@@ -762,7 +1193,9 @@ def run(ck):
     cov["samples"] = [{"text": unhx(cmds[k].split()[1]).decode("latin-1"), "printed": unhx(fields(out_i[k]).get("P", "-")).decode("latin-1")}
                       for k in ys[len(Y_CORPUS) + 1:len(Y_CORPUS) + 3] if k < len(out_i) and not fields(out_i[k]).get("ERR")]
     ck.assumptions += [
-        "HDF5 snapshot write/read clause is NOT exercised (needs the whole binary and HDF5 I/O): only the reader's index arithmetic is proved (over Q, exact midpoints; binary64 rounding of ncell*(x-anchor)/side is not modelled)",
+        "snapshot clause: index theorems over Z for every layout; positions over Q under the hypothesis that the reader's box equals the grid's box (the pinned tree stores the box with 6 digits: finding snapshot_box_precision, "
+        "generators restricted to boxes that survive it while PINNED_BOX_PRECISION); binary64 rounding of ncell*(x-anchor)/side, HDF5 I/O and the unit block are exercised on the real code (bit-exact read back), not proved; "
+        "AMR / Voronoi snapshot branches are outside the claim; all round trips set DensityGridWriterFields:Temperature: 1 (with the default fields the reader aborts)",
         "number formatting and parsing (operator<< with 6 significant digits, strtod/stod/sscanf, std::stoi) are oracles: the used-values clause is checked on the real code by re-reading (tolerance 5.1e-6 relative = printed precision), not proved",
         "unit algebra theorems are over R; binary64 behaviour is tied by bit-exact comparison of the model (Coq PrimFloat through ExtrOCamlFloats) with the real UnitConverter; to_SI/to_unit round trip on the real code within 16 ulp",
         "harness replaces cmac_error (abort) by a C++ exception so that rejected inputs can be compared; undefined behaviour of the parser (dedent below every open level) is modelled as an error and not generated",
@@ -777,7 +1210,37 @@ def run(ck):
         ck.violation("broken without a failing input: " + " || ".join(b[:1500] for b in ck.breaks), {"no_longer_checks": ck.breaks}, key={"kind": "break"}, no_input=True)
 
 
+def replay_snapshot(ck, rp):
+    r = rp["replay"]
+    d = ck.scratch
+    ok, log = vf.cxx_build(SNAP_HARNESS, os.path.join(d, "snap_impl"), extra=["-Wl,--no-as-needed", "-lhdf5_serial", "-lmpi_cxx", "-lmpi"], libs=False, openmp=True)
+    if not ok:
+        print(log[-2000:])
+        print("REPLAY: snapshot harness does not compile")
+        return 1
+    work = os.path.join(d, "snapwork")
+    os.makedirs(work, exist_ok=True)
+    c = dict(r["case"])
+    c["n"], c["s"] = tuple(c["n"]), tuple(c["s"])
+    c["text"] = r["param_text"]
+    print(r["param_text"])
+    rc, out = vf.run_lines([os.path.join(d, "snap_impl"), work], r["snapshot_cmd"] + "\n", timeout=600, env=dict(os.environ, OMP_NUM_THREADS="2"))
+    blocks = snap_split(out)
+    if not blocks:
+        print("REPLAY: harness died (exit %d)" % rc)
+        return 1
+    blk = blocks[0]
+    print(" ".join(blk["G"] or []), "|", blk["E"])
+    why = snap_oracle(c, blk)
+    nbad = sum(1 for row in blk["C"] if any(x.split(":")[0] != x.split(":")[1] for x in row[4:]))
+    print("cells whose read-back values differ bitwise from the written values: %d of %d" % (nbad, len(blk["C"])))
+    print("REPLAY:", why[0] if why else "property holds on this input")
+    return 1 if why else 0
+
+
 def replay(ck, rp):
+    if "snapshot_cmd" in rp["replay"]:
+        return replay_snapshot(ck, rp)
     okm, oki = build(ck)
     r = rp["replay"]
     cmds = r.get("cmds") or [r["cmd"]]
